@@ -6,7 +6,7 @@ from hypothesis import strategies as st
 from vf.core import CaseResult, Ctx, Violation, hyp_run
 from vf.gen.wfspec import atoms_of, rec_points, wfspecs
 from vf.sim.drive import (
-    SCase, job_outputs, outcome_for, outcome_maps, run_async, schedules)
+    SCase, heard_result_of, outcome_maps, run_async, schedules)
 
 PROP_ID = 'C04'
 LEVEL = 'exploration'
@@ -41,6 +41,11 @@ ASSUMPTIONS = [
     'limit than the statement.',
     'The stop point in effect is read from the scheduler (it is an input: '
     'configuration or command).',
+    'The reference run of the "finishes" clause counts a custom output only '
+    'if its message was processed while the task was in the pool: a message '
+    'that the schedule delivers after "succeeded" has completed and removed '
+    'the task is undeliverable by design (class '
+    'output-message-after-task-left-pool).',
 ]
 
 
@@ -169,8 +174,10 @@ async def _check(case, ctx: Ctx) -> CaseResult:
             spec['extra'].get('stop_after') is not None
             or 'stop-point-command' in classes)
         if not stop_in_effect and not sc.inconclusive:
-            def result_of(t, p):
-                return job_outputs(spec, t, outcome_for(outcomes, t, p, 1))
+            result_of, unheard = heard_result_of(
+                sim, spec, outcomes, sc.drv.to_str)
+            if unheard:
+                classes.add('output-message-after-task-left-pool')
             ran, done, ambiguous = model.closure(result_of)
             all_complete = all(model.complete(t, done[i]) for i in ran
                                for t in [i[0]])
